@@ -347,6 +347,19 @@ def CInstr.Valid : CInstr R → Prop
   | .consts shape vals => vals.length = elements shape ∧ vals ≠ []
   | _ => True
 
+/-- `derivatives()` said with scalar records only: nothing for constants, otherwise the reverse
+    sweep of every record (the records of one container are all constants or all on one tape) -/
+def recsDerivatives (recs : List (Rec R)) (w : World R) : Outcome (Option (List (List R))) :=
+  match recs.head? with
+  | none => .ok none
+  | some r =>
+    match r.history with
+    | none => .ok none
+    | some _ =>
+      match Cont.collectOutcomes (recs.map fun r => r.derivatives w) with
+      | .ok ds => .ok (some ds)
+      | .panic k => .panic k
+
 end Run
 
 end EasyMl
